@@ -280,6 +280,26 @@ def check(ctx, run):  # noqa: F811
     from .c03 import containers
     containers(ctx, run, rule="C02.R5")
     option_classes_use_the_mixin(ctx, run, "C02.R1")
+    no_memoised_state(ctx, run, "C02.R6", "a value remembered from an earlier pass reaches a later one: the hedge at step t can then depend on prices after t")
+    # R7 the recurrent input: at step 0 the previous hedge is zero (reset before the loop), afterwards the output of step i-1 of THIS pass -
+    # otherwise the first position depends on the last step of whatever the hedger evaluated before (facts C03.R3c-e, re-stated here)
+    from ..report import Run
+    from . import c03
+    sub = Run("C03", run.tier, "other", "")
+    try:
+        c03.check(ctx, sub)
+    except AnalysisError as ex:
+        if not sub.findings:
+            raise
+        sub.notes.append(str(ex))
+    run.require("C02.R7", 3)
+    for r_, inst, ok, detail in sub.obligations:
+        if r_ == "C03.R3" and inst.startswith(("C03.R3c", "C03.R3d", "C03.R3e")):
+            run.oblige("C02.R7", inst, ok, detail)
+    for f in sub.findings:
+        if f.rule in ("C03.R3c", "C03.R3d", "C03.R3e"):
+            run.fail(Finding("C02.R7", f.function, f"[{f.rule}] {f.construct}", "the previous-hedge input is not zero at step 0 / not the output of the previous step of the same pass: the hedge depends on an earlier evaluation",
+                             file=f.file, line=f.line, case=f.case))
 
 
 def option_classes_use_the_mixin(ctx, run, rule):
@@ -302,3 +322,29 @@ def option_classes_use_the_mixin(ctx, run, rule):
             ci = prog.classes[cls]
             run.fail(Finding(rule, cls, "; ".join(bad)[:300], "this derivative class replaces a method the analysis interpreted on the generic option; its own version is not covered",
                              file=str(prog.modules[ci.module].path), line=ci.node.lineno))
+
+
+def no_memoised_state(ctx, run, rule, why):
+    """features and the option mixin compute from the current buffers and keep nothing: a memoised path statistic or grid filled during one pass
+    is read during the next one (where it holds later columns, another simulation, another step size)"""
+    from ..purity import stores
+    from .. import entrypoints as E
+    prog, interp = ctx.prog, ctx.interp
+    for label, mode, ts, make in E.feature_runs(ctx):
+        f = make()
+        get = prog.lookup_method(f.cls, "get")
+        st = stores(interp.explore(get, [ts], {}, self_obj=f))
+        run.oblige(rule, f"{label}.get({mode}) keeps no state", not st, "; ".join(st))
+        if st:
+            run.fail(Finding(rule, get.qualname, f"{label}.get({mode}): " + "; ".join(st), why, file=str(prog.modules[get.module].path), line=get.node.lineno))
+    d = W.option()
+    for meth, args in (("moneyness", [W.integer("i")]), ("log_moneyness", [W.integer("i")]), ("time_to_maturity", [W.integer("i")]), ("max_moneyness", [W.integer("i")]), ("max_log_moneyness", [W.integer("i")]),
+                       ("moneyness", [None]), ("time_to_maturity", [None]), ("max_moneyness", [None]), ("max_log_moneyness", [None]), ("payoff", [])):
+        fi = prog.lookup_method(d.cls, meth)
+        if fi is None:
+            raise AnalysisError(f"anchor vanished: {meth}")
+        st = stores(interp.explore(fi, list(args), {}, self_obj=W.option()))
+        lab = f"OptionType.{meth}({'step' if args and args[0] is not None else 'all' if args else ''}) keeps no state"
+        run.oblige(rule, lab, not st, "; ".join(st))
+        if st:
+            run.fail(Finding(rule, fi.qualname, lab + ": " + "; ".join(st), why, file=str(prog.modules[fi.module].path), line=fi.node.lineno))
